@@ -14,7 +14,8 @@ REQUIRED_THEOREMS = ['C19_construct_leaves_ingredient', 'C19_constructions_agree
                      'C19_switch_history_free', 'C19_result_stable', 'C19_alias_counterexample',
                      'C19_frame', 'C19_deep_copy_isolated', 'C19_mixed_history', 'C19_shared_cell_counterexample',
                      'C19_sens_columns_follow_configuration', 'C19_reconfigure_history_free',
-                     'C19_count_shortcut_counterexample']
+                     'C19_count_shortcut_counterexample', 'C19_every_row_written_no_junk',
+                     'C19_skipped_row_counterexample']
 RULE = ('for every kind of evaluable object (reduced error / mechanistic / population models, individual and '
         'hierarchical likelihoods and posteriors with and without fixed parameters, predictive models) a random '
         'interleaving (with repeats) of all its evaluation calls at several inputs is compared, call by call, with '
@@ -34,6 +35,12 @@ RULE = ('for every kind of evaluable object (reduced error / mechanistic / popul
         'measurement columns held by the caller\'s filter and by every built posterior are compared with the Lean '
         'store model; a forked pints.ParallelEvaluator and the sequential one (individual, hierarchical and '
         'population-filter posteriors) are compared with single evaluations of objects of their own; '
+        'hierarchical likelihoods / posteriors with individuals WITHOUT measurements: evaluateS1 repeated, interleaved '
+        'with value calls, a sibling and allocate-fill-free array work of the process (memory nobody wrote must never '
+        'reach a result), the gradient against finite differences of __call__ of an object of its own; predictive '
+        'models whose error model has a fixed parameter (user-supplied ReducedErrorModel / controller.fix_parameters): '
+        'seeded samples before / after the fixed value is changed on the source and on a sibling predictive model, and '
+        'against a model built from ingredients of its own; '
         'non-trivial = interleaving of >=2 evaluation kinds with fixed parameters or >=2 objects; distinct = '
         '(object kind, interleaving shape)')
 ASSUMPTIONS = ['process forking / pickling is runtime behaviour: observed, not proved',
@@ -1594,6 +1601,192 @@ def parallel(ctx, chi, rng, n_points=4, which=0):
     ctx.spec('C19.parallel_evaluation', same(np.array(alone), np.array(again)), inp, detail)
 
 
+def junk_fill(rng, shapes, rounds=12):
+    """unrelated numerical work of the process between two calls: arrays of the sizes the evaluated object works
+    with are allocated, filled and freed again (numpy / malloc hand freed blocks out again, unwritten), so a result
+    that depends on memory nobody wrote differs from call to call"""
+    v = float(rng.uniform(1e3, 1e6)) * (1.0 if rng.random() < 0.5 else -1.0)
+    for shp in shapes:
+        blocks = [np.full(shp, v) for _ in range(rounds)]
+        del blocks
+
+
+def hier_unmeasured(ctx, chi, rng):
+    """a hierarchical likelihood / posterior in which at least one individual has NO measurements (enrolled, not
+    measured yet): evaluateS1, repeated and interleaved with value calls, evaluations at other points, a sibling
+    (everybody measured) and unrelated array work of the process, returns the same result every time, and the
+    gradient is the derivative of the value returned by __call__ of an object of its own"""
+    import oracle
+    n_ids = int(rng.integers(2, 5))
+    D = int(rng.integers(2, 5))
+    subs, left = [], D
+    while left:
+        nd = int(rng.integers(1, left + 1))
+        nc = int(rng.random() < 0.2)
+        subs.append((int(rng.integers(7)), nd, nc, None))
+        left -= nd
+    n_cov = sum(nc for _, _, nc, _ in subs)
+    cov = rng.normal(size=(n_ids, n_cov)) * 0.3 if n_cov else None
+    n_obs = [int(rng.integers(0, 4)) for _ in range(n_ids)]
+    n_obs[int(rng.integers(n_ids))] = 0
+    if not any(n_obs):
+        n_obs[int(rng.integers(n_ids))] = int(rng.integers(1, 4))
+    grid = np.arange(1, 20) * 0.5
+
+    def gen_data(counts):
+        return [(list(np.sort(rng.choice(grid, m, replace=False))), list(rng.uniform(0.5, 3, m))) for m in counts]
+    data = gen_data(n_obs)
+    data_sibling = gen_data([max(m, 1) for m in n_obs])
+    posterior = rng.random() < 0.4
+    mseed = int(rng.integers(100))
+
+    def build(dat=data):
+        pm = chi.ComposedPopulationModel([c02.make_sub(chi, *s, n_ids=n_ids) for s in subs])
+        lls = [chi.LogLikelihood(toy.ToyModel(1, D - 1, mseed), chi.GaussianErrorModel(), o, t) for t, o in dat]
+        h = chi.HierarchicalLogLikelihood(lls, pm, covariates=None if cov is None else cov.copy())
+        if posterior:
+            nt = h.n_parameters(exclude_bottom_level=True)
+            pr = pints.ComposedLogPrior(*[pints.LogNormalLogPrior(0.0, 0.4) for _ in range(nt)]) if nt > 1 \
+                else pints.LogNormalLogPrior(0.0, 0.4)
+            return chi.HierarchicalLogPosterior(h, pr)
+        return h
+    kind = 'HierarchicalLogPosterior' if posterior else 'HierarchicalLogLikelihood'
+    target, sibling, own = build(), build(data_sibling), build()
+    n = target.n_parameters()
+    x = rng.uniform(0.5, 1.5, n)
+    others = [rng.uniform(0.5, 1.5, n) for _ in range(2)]
+    shapes = [(n_ids, D), (n,), (n_ids,), (D,), (n_ids, 2, D)]
+    moves = ['sibling', 'junk', 'call', 'other', 'junk', 'none']
+    plan = [[moves[int(j)] for j in rng.integers(0, len(moves), int(rng.integers(1, 3)))] for _ in range(4)]
+    plan[int(rng.integers(1, 4))].append('junk')
+    inp = {'object': kind + ' with unmeasured individuals', 'n_observations': n_obs, 'population_model': [list(s[:3]) for s in subs],
+           'x': x, 'between_the_calls': plan}
+    results = []
+    with np.errstate(all='ignore'):
+        for step in plan:
+            for mv in (step if results else []):
+                if mv == 'sibling':
+                    sibling.evaluateS1(others[0])
+                elif mv == 'junk':
+                    junk_fill(rng, shapes)
+                elif mv == 'call':
+                    target(x.copy())
+                elif mv == 'other':
+                    target.evaluateS1(others[1])
+            results.append(snap(target.evaluateS1(x.copy())))
+            if not results[1:]:
+                junk_fill(rng, shapes)
+        value = float(own(x))
+    finite = math.isfinite(value)
+    ctx.case('unmeasured-individual/%s' % kind,
+             nontrivial='unmeasured/%s/%s/%s' % (kind, n_obs, [s[0] for s in subs]) if finite else False, sample=inp)
+    tag = 'C19.unmeasured_individual/'
+    bad = [r for r in range(1, len(results)) if not same(results[r], results[0])]
+    ctx.spec(tag + 'evaluateS1_repeated', not bad, inp,
+             {'calls_that_differ_from_the_first': bad, 'first': results[0], 'other': results[bad[0]] if bad else None})
+    if not finite:
+        return
+    ctx.spec(tag + 'score_of_evaluateS1_is_value', all(near_fd(r[0], value) for r in results), inp,
+             {'value': value, 'scores': [r[0] for r in results]})
+    # the gradient against the derivative of the value (an object of its own, value calls only): a cheap central
+    # difference for every entry; only where that disagrees, the careful step-size ladder decides
+    f = lambda y: float(own(y))  # noqa
+    with np.errstate(all='ignore'):
+        for r in sorted({0, len(results) - 1}):
+            g = np.asarray(results[r][1], float)
+            wrong = []
+            for k in range(n):
+                h = 1e-5 * max(1.0, abs(x[k]))
+                up, lo = x.copy(), x.copy()
+                up[k] += h
+                lo[k] -= h
+                est = (f(up) - f(lo)) / (2 * h)
+                if math.isfinite(est) and abs(est - g[k]) <= 1e-6 + 1e-5 * max(abs(est), abs(g[k])):
+                    continue
+                ok, est2 = oracle.grad_matches(f, x, k, float(g[k]))
+                if not ok:
+                    wrong.append([k, float(g[k]), est2])
+            ctx.spec(tag + 'gradient_is_derivative_of_value', not wrong, dict(inp, call=r),
+                     {'[index, evaluateS1, finite difference of __call__]': wrong})
+
+
+def near_fd(a, b):
+    return bool(np.isclose(float(a), float(b), rtol=1e-9, atol=1e-9))
+
+
+def predictive_from_reduced(ctx, chi, rng):
+    """a PredictiveModel whose error model has a FIXED parameter (a user-supplied ReducedErrorModel, or the one a
+    ProblemModellingController makes in fix_parameters): seeded samples before / after the fixed value is changed
+    on the source (the user's object / the controller) and on a sibling predictive model, and against a model
+    built from ingredients of its own with the value fixed once"""
+    route = ['user', 'controller'][int(rng.integers(2))]
+    base = c08.em_classes(chi)[int(rng.integers(4))]
+    mseed = int(rng.integers(100))
+    times = np.sort(rng.uniform(0.1, 5, 3))
+    em_names = base().get_parameter_names()
+    name = em_names[int(rng.integers(len(em_names)))]
+    v0, v1, v2 = float(rng.uniform(0.2, 0.6)), float(rng.uniform(1.5, 3)), float(rng.uniform(4, 6))
+    seed = int(rng.integers(1000))
+
+    def own(v):
+        em = chi.ReducedErrorModel(base())
+        em.fix_parameters({name: v})
+        return chi.PredictiveModel(toy.ToyModel(1, 2, mseed), [em])
+    x = rng.uniform(0.5, 1.5, own(v0).n_parameters())
+    draw = lambda m: snap(m.sample(x.copy(), times.copy(), n_samples=3, seed=seed, return_df=False))  # noqa
+    inp = {'object': 'PredictiveModel from a reduced error model (%s)' % route, 'error_model': base.__name__,
+           'fixed': name, 'values': [v0, v1, v2], 'x': x, 'times': times, 'seed': seed}
+    ctx.case('predictive-from-reduced/%s' % route, nontrivial='pfr/%s/%s/%s' % (route, base.__name__, name), sample=inp)
+    ref0 = draw(own(v0))
+    mech = toy.ToyModel(1, 2, mseed)
+    later = int(rng.integers(3))
+    if route == 'user':
+        em = chi.ReducedErrorModel(base())
+        em.fix_parameters({name: v0})
+        first = chi.PredictiveModel(mech, [em])
+        second = chi.PredictiveModel(mech, [em])
+
+        def change_source():
+            if later == 0:
+                em.fix_parameters({name: v1})
+            elif later == 1:
+                em.fix_parameters({name: None})
+            else:
+                em.fix_parameters({n_: v1 for n_ in em_names})
+    else:
+        c = chi.ProblemModellingController(mech, [base()])
+        c.fix_parameters({name: v0})
+        first = c.get_predictive_model()
+        second = c.get_predictive_model()
+
+        def change_source():
+            if later == 0:
+                c.fix_parameters({name: v1})
+            elif later == 1:
+                c.fix_parameters({name: None})
+            else:
+                c.fix_parameters({n_: v1 for n_ in em_names})
+            c.get_predictive_model()
+    names0 = list(first.get_parameter_names())
+    a0, b0 = draw(first), draw(second)
+    tag = 'C19.predictive_model_owns_reduced_error_model/' + route
+    ctx.spec(tag, near(a0, ref0) and near(b0, ref0), dict(inp, after='construction'),
+             {'first': a0, 'second': b0, 'model_of_its_own': ref0})
+    change_source()
+    a1, b1 = draw(first), draw(second)
+    ctx.spec(tag, same(a1, a0) and same(b1, b0) and list(first.get_parameter_names()) == names0,
+             dict(inp, after='fixed value changed on the source (%d)' % later),
+             {'before': a0, 'after': a1, 'sibling_before': b0, 'sibling_after': b1, 'model_of_its_own': ref0})
+    # siblings: re-fixing on one predictive model does not concern the other one
+    first.fix_parameters({name: v2})
+    b2 = draw(second)
+    ctx.spec('C19.sibling_independent/PredictiveModel', same(b2, b0) and list(second.get_parameter_names()) == names0,
+             dict(inp, after='fixed value changed on the sibling'), {'before': b0, 'after': b2, 'model_of_its_own': ref0})
+    a2 = draw(first)
+    ctx.spec(tag, near(a2, draw(own(v2))), dict(inp, after='fixed value changed on the model itself'),
+             {'model': a2, 'model_of_its_own': draw(own(v2))})
+
+
 def run(ctx):
     chi = core.import_chi()
     n = 240 if ctx.tier == 'quick' else 3000
@@ -1649,6 +1842,10 @@ def run(ctx):
                           {'call': lambda m, x: m(x), 's1': lambda m, x: m.evaluateS1(x)}, [0, 1], r11)
         if i % 6 == 3:
             ctx.guard(construct_correspondence, ctx, chi, ctx.sub_rng(12 * 10 ** 6 + i))
+        if i % 4 == 2:
+            ctx.guard(hier_unmeasured, ctx, chi, ctx.sub_rng(13 * 10 ** 6 + i))
+        if i % 4 == 0:
+            ctx.guard(predictive_from_reduced, ctx, chi, ctx.sub_rng(14 * 10 ** 6 + i))
     for w in range(3):
         ctx.guard(parallel, ctx, chi, ctx.sub_rng(10 ** 7 + 100 * w), 4, w)
     if ctx.tier == 'thorough':
